@@ -18,7 +18,7 @@ RULE = ("seeded integer-tick inputs driven through integer-argument histories: b
         "type-checked by the sanitizer, every live Message is scanned after the history, every emitted token is scanned for "
         "'.'. Non-trivial: the history contains a padded bar or tracks of unequal length.")
 PLAN = {"quick": {"cases": 1600, "jobs": 4, "timeout": 600},
-        "thorough": {"cases": 80000, "jobs": 16, "timeout": 3000, "budget_s": 420}}
+        "thorough": {"cases": 800000, "jobs": 16, "timeout": 3000, "budget_s": 360}}
 FLOORS = {"quick": {"time_type.int_assignments": 300000, "c11.padded_bar": 200, "c11.loaded_files": 200, "c11.unequal_tracks": 300, "c11.tokenised": 300,
                     "c11.live_messages_scanned": 100000, "tokenise.integer_tokens.armed": 300},
           "thorough": {"time_type.int_assignments": 10000000, "c11.padded_bar": 20000}}
